@@ -2,14 +2,14 @@ import PolytuneModel.Server.Net
 import PolytuneModel.Thm.C13reach
 /-! C14 at network level: two parties, all 32 setups, every delivery order, plus ONE stray command that may be delivered at any moment
     (it simply sits in the multiset of commands in flight): a duplicate `schedule` (the party's own policy once more), an MPC message
-    naming an unknown sender, or a `consts` request from an unknown party. For the model of the current tree every reachable state is
+    naming an unknown sender, or a `consts` request WITH a payload from an unknown party. For the model of the current tree every reachable state is
     terminal-and-good or has a successor, where "good" is C13's good final state except that at most one error reply (the answer to
     the stray command) has been seen; no panic anywhere. (A stray `validate` or `run` that is VALID for the receiver's state is
     indistinguishable from the real one and is outside the property.) For the tree as it was the same exploration finds the crashes. -/
 namespace PolytuneModel.Server
 
 def strays (su : Setup) : List (Nat × Cmd) :=
-  (List.range su.n).flatMap fun p => [(p, .schedule (polOf su p)), (p, .mpcMsg 7), (p, .consts 9 false)]
+  (List.range su.n).flatMap fun p => [(p, .schedule (polOf su p)), (p, .mpcMsg 7), (p, .consts 9 true)]
 
 def initNetStray (su : Setup) (x : Nat × Cmd) : Net := { initNet su with flight := insertSorted x (initNet su).flight }
 
